@@ -69,9 +69,31 @@ func linesOfGoTextKeepTheirOwnIndent(c *Ctx, rule string) {
 			return true
 		})
 		k := 0
+		// a trimmed copy that is only compared or measured (is the line blank?) is not what gets written
+		onlyTested := map[*ast.CallExpr]bool{}
+		ast.Inspect(fd.Body, func(x ast.Node) bool {
+			switch t := x.(type) {
+			case *ast.BinaryExpr:
+				switch t.Op.String() {
+				case "==", "!=":
+					for _, side := range []ast.Expr{t.X, t.Y} {
+						if c2, ok := ast.Unparen(side).(*ast.CallExpr); ok {
+							onlyTested[c2] = true
+						}
+					}
+				}
+			case *ast.CallExpr:
+				if id, ok := t.Fun.(*ast.Ident); ok && id.Name == "len" && len(t.Args) == 1 {
+					if c2, ok := ast.Unparen(t.Args[0]).(*ast.CallExpr); ok {
+						onlyTested[c2] = true
+					}
+				}
+			}
+			return true
+		})
 		ast.Inspect(fd.Body, func(x ast.Node) bool {
 			call, ok := x.(*ast.CallExpr)
-			if !ok || len(call.Args) == 0 {
+			if !ok || len(call.Args) == 0 || onlyTested[call] {
 				return true
 			}
 			fn := calleeOf(info, call)
